@@ -14,7 +14,7 @@
    shared is touched outside these atoms is checked by the -race harness run, not proved. *)
 From Coq Require Import Permutation.
 From BR Require Import Base.Prelude Model.LRU Proofs.LRU_inv Proofs.LRU_spec Model.Disk
-  Proofs.Disk_inv1 Proofs.Disk_inv2 Proofs.Disk_inv Proofs.Disk_conc Proofs.Disk_conc2.
+  Proofs.LRU_order Proofs.Disk_inv1 Proofs.Disk_inv2 Proofs.Disk_inv Proofs.Disk_conc Proofs.Disk_conc2 Proofs.Disk_conc3.
 Open Scope Z_scope.
 
 (* ---- accounting and directory: every reachable state, and quiescence ---- *)
@@ -131,18 +131,87 @@ Print Assumptions C07_no_internal_accounting_error.
 
 (* ---- an acknowledged upload is found ---- *)
 
-(* PARTIAL form of "an upload acknowledged before a lookup starts is found unless space pressure
-   evicted it".  Proved: in every reachable state of a run with fresh names, if the key is indexed
-   ([peek] is the lookup without touching), a new well-formed Get for it with unknown size (-1) or
-   with the indexed size, run alone to completion ([exec]: spawn + its steps, no other label in
-   between), answers with a hit whose (content identity, size, bytes) is a logged commit of that key
-   (storage mode and kind arbitrary; for compressed CAS entries this uses that the header's logical
-   size equals the indexed size).
-   Missing for the full statement: (a) that the indexed value is the LAST commit of the key in the
-   log, hence the acknowledged upload or a newer one (needs the index's recency list tracked through
-   every operation); (b) that only space pressure removes an entry.  (b) is FALSE of the code as it
-   is: see [found_if_acked_refuted_by_negative_size] below. *)
-Theorem C07_found_if_acked_partial :
+(* (1) An acknowledged upload (Done PutOk, not the empty blob) is in the commit log. *)
+Theorem C07_acked_is_logged :
+  forall (c : cfg) (max_size hard_limit : Z) (ls : list label) t k hash sz st rnd,
+    0 < max_size -> Forall label_ok ls -> fresh_names c (sinit max_size hard_limit) ls ->
+    In t (thr (srun c (sinit max_size hard_limit) ls)) ->
+    t_req t = RPut k hash sz st rnd -> t_pc t = Done PutOk ->
+    (k = CAS /\ sz = 0 /\ hash = emptySha256)
+    \/ exists od, In (lookup_key k hash, st_cid st, sz, od) (commits c (sinit max_size hard_limit) ls).
+Proof. exact acked_is_logged. Qed.
+Print Assumptions C07_acked_is_logged.
+
+(* (2) The commit step indexes the key with the committed item, unless its own Add had to evict
+   under pressure (cur + what the item needs next to the version it replaces > max_size). *)
+Theorem C07_commit_indexes_unless_pressure :
+  forall (c : cfg) (max_size hard_limit : Z) (ls : list label) i t d' t' key cid lsz len,
+    0 < max_size -> Forall label_ok ls -> fresh_names c (sinit max_size hard_limit) ls ->
+    let s := srun c (sinit max_size hard_limit) ls in
+    nth_error (thr s) i = Some t -> tstep c (sd s) t = Some (d', t') ->
+    commit_of t t' = Some (key, cid, lsz, len) ->
+    pressure_commit (sd s) t d' \/
+    exists v, peek key (lru (sd (sstep c s (LStep i)))) = Some v /\ size v = lsz /\ sizeOnDisk v = len.
+Proof. exact commit_indexes_unless_pressure. Qed.
+Print Assumptions C07_commit_indexes_unless_pressure.
+
+(* (3) Exactly which steps can take an indexed key out of the index.  In a reachable state of a run
+   with fresh names, if key K is indexed before a label and not after it, the label is a thread step
+   and it is
+   - a successful Reserve (PutStart / GetProxyDecide) with  n + cur > max_size   (space pressure), or
+   - a successful Add (PutCommit / GetCommit) with  cur + delta > max_size        (space pressure), or
+   - the guarded drop after a failed validation: pc GetDrop v id of a Get for a COMPRESSED CAS entry
+     (legacy v = false) whose requested size is neither -1 nor the logical size of the entry it
+     validated (sz <> -1, sz <> size v).  Files of indexed entries are complete and carry the indexed
+     logical size (si_files + the log invariant), and the fast path checks the size before opening;
+     so this needs a Get that reached the slow path and found there an entry of the same CAS key
+     with ANOTHER logical size — two accepted contents of different size for one SHA-256, which the
+     oracle columns of the model allow and a real hash function does not.
+   The removal in GetSlow is dead (the entry found under the lock has its file), the remover and
+   spawning do not touch the recency list, every other step permutes it. *)
+Theorem C07_only_pressure_or_corruption_removes :
+  forall (c : cfg) (max_size hard_limit : Z) (ls : list label) (l : label) (K : string),
+    0 < max_size -> Forall label_ok ls -> fresh_names c (sinit max_size hard_limit) ls ->
+    let s := srun c (sinit max_size hard_limit) ls in
+    loses c s l K ->
+    exists i t d' t', l = LStep i /\ nth_error (thr s) i = Some t /\ tstep c (sd s) t = Some (d', t') /\
+      (pressure_reserve (sd s) t d' \/ pressure_commit (sd s) t d' \/ failed_validation_drop t).
+Proof. exact only_pressure_or_corruption_removes. Qed.
+Print Assumptions C07_only_pressure_or_corruption_removes.
+
+(* (4) The indexed value of a key is always the LAST commit of that key in the log. *)
+Theorem C07_indexed_is_last_commit :
+  forall (c : cfg) (max_size hard_limit : Z) (ls : list label) (K : string) (v : item),
+    0 < max_size -> Forall label_ok ls -> fresh_names c (sinit max_size hard_limit) ls ->
+    peek K (lru (sd (srun c (sinit max_size hard_limit) ls))) = Some v ->
+    exists cid X1 X2,
+      commits c (sinit max_size hard_limit) ls = X1 ++ (K, cid, size v, sizeOnDisk v) :: X2 /\
+      Forall (fun cm => ckey cm <> K) X2.
+Proof. exact indexed_is_last_commit. Qed.
+Print Assumptions C07_indexed_is_last_commit.
+
+(* (5) Found if acknowledged.  If K is indexed at some moment (by (2): right after the commit of the
+   acknowledged upload unless that Add ran under pressure) and no later label loses it (by (3): no
+   eviction of K under pressure, no drop), then at the end K is indexed with the last commit of K;
+   every commit of K in the log — by (1) the acknowledged upload's is one — is that commit or an
+   earlier one: K is indexed with the acknowledged item or a later commit's. *)
+Theorem C07_found_if_acked :
+  forall (c : cfg) (max_size hard_limit : Z) (ls1 ls2 : list label) (K : string),
+    0 < max_size -> Forall label_ok (ls1 ++ ls2) -> fresh_names c (sinit max_size hard_limit) (ls1 ++ ls2) ->
+    peek K (lru (sd (srun c (sinit max_size hard_limit) ls1))) <> None ->
+    (forall a l b, ls2 = a ++ l :: b -> ~ loses c (srun c (srun c (sinit max_size hard_limit) ls1) a) l K) ->
+    exists v cid X1 X2,
+      peek K (lru (sd (srun c (sinit max_size hard_limit) (ls1 ++ ls2)))) = Some v /\
+      commits c (sinit max_size hard_limit) (ls1 ++ ls2) = X1 ++ (K, cid, size v, sizeOnDisk v) :: X2 /\
+      Forall (fun cm => ckey cm <> K) X2 /\
+      (forall cm, In cm (commits c (sinit max_size hard_limit) (ls1 ++ ls2)) -> ckey cm = K ->
+         In cm (X1 ++ [(K, cid, size v, sizeOnDisk v)])).
+Proof. exact found_if_acked. Qed.
+Print Assumptions C07_found_if_acked.
+
+(* (6) ... and an indexed key is found by a lookup: a new well-formed Get with unknown size (-1) or
+   the indexed size, run alone to completion, answers with a hit that is a logged commit of the key. *)
+Theorem C07_indexed_is_found :
   forall (c : cfg) (max_size hard_limit : Z) (ls : list label),
     0 < max_size -> Forall label_ok ls -> fresh_names c (sinit max_size hard_limit) ls ->
     let s := srun c (sinit max_size hard_limit) ls in
@@ -157,7 +226,7 @@ Theorem C07_found_if_acked_partial :
         In (lookup_key k hash, cid, size v, flen) (commits c (sinit max_size hard_limit) ls) /\
         files d' = files (sd s).
 Proof. exact found_if_indexed. Qed.
-Print Assumptions C07_found_if_acked_partial.
+Print Assumptions C07_indexed_is_found.
 
 (* ---- examples ---- *)
 
@@ -220,30 +289,24 @@ Proof.
   - vm_compute. intros [H|[H|[]]]; discriminate H.
 Qed.
 
-(* FINDING (reproduced against the real disk layer, see the report).  Compressed storage (the
-   default).  An upload is acknowledged; the cache is nearly empty (max_size 1 000 000).  A reader
-   asks for the same blob with size -5: the lookup passes (isSizeMismatch ignores sizes < 0), the
-   header check "expectedSize != -1 && header size != expectedSize" fails, and the reader drops the
-   VALID entry from the index (guarded RemoveElement; the remover then unlinks the file).  A later
-   Get with the right size misses.  No space pressure is involved, so the clause "found unless
-   space pressure evicted it" does not hold of the code.  Over gRPC the negative size arrives through
-   BatchReadBlobs with zstd among the acceptable compressors: validateHash does not reject negative
-   sizes and getBlobResponse passes digest.SizeBytes to GetZstd unchecked. *)
+(* The negative-size read (finding, fixed in /repo: disk.get refuses size < -1).  Compressed storage,
+   an acknowledged upload, then a Get with size -5: it is refused with BadRequest and the entry stays
+   indexed; a later Get with the right size hits.  (Before the fix the reader passed the lookup,
+   failed the header check and dropped the valid entry.) *)
 Definition ex_cfg_zstd : cfg := mkCfg true 1000000 1000000 false.
 Definition ex_negative : list label :=
   [LSpawn (RPut CAS ex_hash 5000 (mkStream 1 5000 false true 2000) "r1");
    LStep 0; LStep 0; LStep 0; LStep 0; LStep 0; LStep 0;   (* upload acknowledged: Done PutOk *)
    LSpawn (RGet CAS ex_hash (-5) 0 true BMiss "g1");
-   LStep 1; LStep 1; LStep 1; LStep 1; LStep 1;            (* lookup, open, validate fails, DROP, miss *)
+   LStep 1;                                                 (* refused *)
    LSpawn (RGet CAS ex_hash 5000 0 false BMiss "g2");
    LStep 2; LStep 2; LStep 2].
 
-Example found_if_acked_refuted_by_negative_size :
+Example negative_size_is_refused :
   Forall label_ok ex_negative /\ fresh_names ex_cfg_zstd (sinit 1000000 0) ex_negative /\
-  (let s := srun ex_cfg_zstd (sinit 1000000 0) (firstn 7 ex_negative) in
-   map t_pc (thr s) = [Done PutOk] /\ LRU.stats (lru (sd s)) = (4096, 0, 1, 8192)) /\
   (let s := srun ex_cfg_zstd (sinit 1000000 0) ex_negative in
-   map t_pc (thr s) = [Done PutOk; Done GetMiss; Done GetMiss] /\ LRU.stats (lru (sd s)) = (0, 0, 0, 0)).
+   map t_pc (thr s) = [Done PutOk; Done (GetErr EBadRequest); Done (GetHit 5000 1 2000)] /\
+   LRU.stats (lru (sd s)) = (4096, 0, 1, 8192)).
 Proof.
   split; [|split].
   - unfold ex_negative. repeat (apply Forall_cons; [simpl; try exact I; lia|]). apply Forall_nil.
